@@ -143,6 +143,22 @@ def check(model, rep):
                 'for all n >= 2, iterate in an order compatible with the dependence, and no event may read or overwrite a '
                 'kinematic attribute in a way that makes a recorded value stale (generic no-stale-read rule with the uniform '
                 'zero clamp as the only allowed late writer). Decides the code shape, not numeric trajectories.')
+    # rules that do not need the solver IR first: they report even when the IR cannot be built
+    check_recorder(model, rep)
+    from sa.forwarding import check_forwarding
+    check_forwarding(model, rep, 'C01.forwarding', ('angular_position', 'angular_speed', 'angular_acceleration', 'master_gear_ratio'))
+    from sa.forwarding import check_setter_stores
+    check_setter_stores(model, rep, 'C01.setter-stores', ('angular_position', 'angular_speed', 'angular_acceleration', 'master_gear_ratio'))
+    # "multiplied by the downstream element's gear ratio to its driver (slave teeth / master teeth ..., exactly 1 for a joint)":
+    # the ratio is what the relation functions stored, by accepted declarations only (C10's effect and atomicity rules)
+    from sa.core import Report
+    from checks import c10
+    dep = Report('C10')
+    c10.check(model, dep)
+    for i in dep.instances:
+        if i.rule in ('C10.effects', 'C10.atomic'):
+            (rep.holds if i.status == 'HOLDS' else (rep.violation if i.status == 'VIOLATION' else rep.cannot))(
+                'C01.dep.ratio.' + i.rule.split('.')[1], i.construct, i.detail, i.loc)
     try:
         rm = run_model(model)
     except CannotDecide as e:
@@ -155,24 +171,9 @@ def check(model, rep):
         check_instant(rm, rep, name, events, seen)
     if not any(i.rule == 'C01.order' for i in rep.instances):
         rep.holds('C01.order', 'all instants', f'{len(ins)} instant contexts: no stale read / loop-order defect on the kinematic attributes')
-    check_recorder(model, rep)
-    from sa.forwarding import check_forwarding
-    check_forwarding(model, rep, 'C01.forwarding', ('angular_position', 'angular_speed', 'angular_acceleration', 'master_gear_ratio'))
-    from sa.forwarding import check_setter_stores
-    check_setter_stores(model, rep, 'C01.setter-stores', ('angular_position', 'angular_speed', 'angular_acceleration', 'master_gear_ratio'))
     fresh = [n for n, _, _ in ins if n.startswith('fresh')]
     rep.decide(bool(fresh), 'C01.contexts', 'fresh-start instant', 'no fresh-start instant (t = 0) is computed before the stepping loop')
     rep.analysed.update({'run_paths': len(rm.paths), 'instant_contexts': len(ins), 'loops': len(rm.ir.loops)})
-    # "multiplied by the downstream element's gear ratio to its driver (slave teeth / master teeth ..., exactly 1 for a joint)":
-    # the ratio is what the relation functions stored, by accepted declarations only (C10's effect and atomicity rules)
-    from sa.core import Report
-    from checks import c10
-    dep = Report('C10')
-    c10.check(model, dep)
-    for i in dep.instances:
-        if i.rule in ('C10.effects', 'C10.atomic'):
-            (rep.holds if i.status == 'HOLDS' else (rep.violation if i.status == 'VIOLATION' else rep.cannot))(
-                'C01.dep.ratio.' + i.rule.split('.')[1], i.construct, i.detail, i.loc)
     rep.require('C01.formula', 3, 'position, speed and acceleration propagation')
     rep.require('C01.coverage', 3)
     rep.require('C01.clamp', 1)
